@@ -1,0 +1,119 @@
+// MIT License
+//
+// Copyright (c) 2022-2026 GoAkt Team
+//
+// Permission is hereby granted, free of charge, to any person obtaining a copy
+// of this software and associated documentation files (the "Software"), to deal
+// in the Software without restriction, including without limitation the rights
+// to use, copy, modify, merge, publish, distribute, sublicense, and/or sell
+// copies of the Software, and to permit persons to whom the Software is
+// furnished to do so, subject to the following conditions:
+//
+// The above copyright notice and this permission notice shall be included in all
+// copies or substantial portions of the Software.
+//
+// THE SOFTWARE IS PROVIDED "AS IS", WITHOUT WARRANTY OF ANY KIND, EXPRESS OR
+// IMPLIED, INCLUDING BUT NOT LIMITED TO THE WARRANTIES OF MERCHANTABILITY,
+// FITNESS FOR A PARTICULAR PURPOSE AND NONINFRINGEMENT. IN NO EVENT SHALL THE
+// AUTHORS OR COPYRIGHT HOLDERS BE LIABLE FOR ANY CLAIM, DAMAGES OR OTHER
+// LIABILITY, WHETHER IN AN ACTION OF CONTRACT, TORT OR OTHERWISE, ARISING FROM,
+// OUT OF OR IN CONNECTION WITH THE SOFTWARE OR THE USE OR OTHER DEALINGS IN THE
+// SOFTWARE.
+
+//go:build verif
+
+package actor
+
+import (
+	"sync/atomic"
+)
+
+// VerifBehaviors returns the behavior stack of pid, top first. Read-only
+// projection for the verification harness; call it only while the actor is
+// quiescent (idle, or parked inside a handler).
+func (pid *PID) VerifBehaviors() []Behavior {
+	var out []Behavior
+	if pid.behaviorStack == nil {
+		return out
+	}
+	for p := atomic.LoadPointer(&pid.behaviorStack.top); p != nil; {
+		node := (*bnode)(p)
+		out = append(out, node.value)
+		p = atomic.LoadPointer(&node.next)
+	}
+	return out
+}
+
+// VerifBehaviorLen returns the length counter of the behavior stack.
+func (pid *PID) VerifBehaviorLen() int {
+	if pid.behaviorStack == nil {
+		return 0
+	}
+	return pid.behaviorStack.Len()
+}
+
+// VerifDefaultBehavior returns the actor's Receive method as a Behavior.
+func (pid *PID) VerifDefaultBehavior() Behavior {
+	return pid.actor.Receive
+}
+
+// verifBoxMessages lists the messages linked into an UnboundedMailbox, oldest first.
+func verifBoxMessages(box *UnboundedMailbox) []any {
+	var out []any
+	if box == nil {
+		return out
+	}
+	head := (*ReceiveContext)(atomic.LoadPointer(&box.head))
+	for cur := (*ReceiveContext)(atomic.LoadPointer(&head.next)); cur != nil; cur = (*ReceiveContext)(atomic.LoadPointer(&cur.next)) {
+		out = append(out, cur.message)
+	}
+	return out
+}
+
+// VerifMailboxMessages lists the user messages waiting in the main mailbox,
+// oldest first. ok is false when the mailbox is not an UnboundedMailbox (use
+// VerifMailboxLen then). Call only while the actor is quiescent.
+func (pid *PID) VerifMailboxMessages() (msgs []any, ok bool) {
+	box, ok := pid.mailbox.(*UnboundedMailbox)
+	if !ok {
+		return nil, false
+	}
+	return verifBoxMessages(box), true
+}
+
+// VerifMailboxLen returns the main mailbox length.
+func (pid *PID) VerifMailboxLen() int64 {
+	return pid.mailbox.Len()
+}
+
+// VerifStashMessages lists the stashed messages, oldest first; ok is false
+// when the actor has no stash buffer.
+func (pid *PID) VerifStashMessages() (msgs []any, ok bool) {
+	state := pid.stashState
+	if state == nil || state.box == nil {
+		return nil, false
+	}
+	return verifBoxMessages(state.box), true
+}
+
+// VerifIdle reports whether no worker owns the actor, it is not queued for a
+// turn and both of its mailboxes are empty, i.e. every message enqueued so far
+// has been dequeued and its dispatch has returned.
+func (pid *PID) VerifIdle() bool {
+	return pid.schedState.Load() == dispatchIdle && pid.mailbox.IsEmpty() && pid.systemMailbox.IsEmpty()
+}
+
+// VerifContextErr returns the error recorded on rctx via Err.
+func VerifContextErr(rctx *ReceiveContext) error {
+	return rctx.getError()
+}
+
+// VerifBlockingRequests returns the number of in-flight stash-mode
+// (StashNonReentrant) requests, or -1 when reentrancy is disabled.
+func (pid *PID) VerifBlockingRequests() int64 {
+	state := pid.reentrancy.Load()
+	if state == nil {
+		return -1
+	}
+	return int64(state.blockingCount.Load())
+}
